@@ -123,6 +123,10 @@ def render(kind: str, name: str, model: dict[str, Any], prelude: "list[str] | No
     raise AssertionError(kind)
 
 
+def concrete(kind: str, name: str, model: dict[str, Any]) -> Any:
+    return eval(render(kind, name, model))
+
+
 def spec_binary(op: str, l: Any, r: Any) -> tuple[str, Any]:
     """Reference semantics: evaluate the Python operator itself on the (proxy) operands.
     Returns ('value', v) or ('raises', exception type name)."""
